@@ -19,10 +19,18 @@ RULE = (
     "parameter value (size 1-5; SoftAbs parameters include exactly repeated and 1e-9-close eigenvalues), a "
     "direction D in the parameter's own structure and a vector v. Oracle: <grad, D> equals the 6th-order "
     "central difference of the dense formula log|det M(theta+sD)| resp. v'M(theta+sD)^-1 v (rtol 1e-6), and "
-    "the gradient has the parameter's structure (shape, zero unused triangle, tuple length). Non-trivial: "
+    "the gradient has the parameter's structure (shape, zero unused triangle, tuple length). In two thirds of the "
+    "cases a further differentiable matrix is derived from the constructed one by up to two of c*M, M*c, M/c, -M, "
+    "M.inv, M.T after evaluating up to two cache-populating attributes (log_abs_det, inv, sqrt, gradients, eigval, "
+    "factor, T); where the derived object's class exposes its parameter (scalar, diagonal, triangular factor, dense "
+    "array, tuple of such blocks) the same two gradients are compared with finite differences in that parameter. "
+    "Non-trivial: "
     "size >= 2 and not a plain (scaled) identity/diagonal class. Distinct by SHA-1 of the canonical JSON."
 )
 ASSUMPTIONS = ["finite-difference truncation+rounding error <= 1e-8 relative (step 1e-3, 6th order)"]
+
+WARM = ["log_abs_det", "inv", "sqrt", "grad_log_abs_det", "grad_quad", "eigval", "factor", "T", "array", "inv.log_abs_det"]
+DERIV = ["mul", "rmul", "div", "neg", "inv", "T", "abs-mul"]
 
 PD_BLOCK_CLASSES = ["PositiveScaledIdentity", "PositiveDiagonal", "TriFactoredPD", "DensePD", "DensePDProduct",
                     "SoftAbs", "LowRankPD"]
@@ -78,7 +86,13 @@ def param_spec(draw, n, classes=ALL_CLASSES, depth=1):
 @st.composite
 def _case(draw):
     n = draw(st.integers(1, 5))
-    return {"param": draw(param_spec(n)), "D": draw(vec(64)), "v": draw(vec(8, -2.0, 2.0))}
+    case = {"param": draw(param_spec(n)), "D": draw(vec(64)), "v": draw(vec(8, -2.0, 2.0))}
+    # a differentiable matrix *derived* from the constructed one (scalar multiple, quotient, negation, inverse,
+    # transpose), optionally after evaluating attributes that populate caches the derived object may be handed
+    case["warm"] = draw(st.lists(st.sampled_from(WARM), max_size=2))
+    case["deriv"] = draw(st.lists(st.sampled_from(DERIV), max_size=2))
+    case["c"] = draw(mtree.nz)
+    return case
 
 
 def strategy(tier):
@@ -265,6 +279,161 @@ def structure_problems(f, g, path="grad"):
     return []
 
 
+def readout(M):
+    """Family of a mici DifferentiableMatrix object read off the object itself: its defining parameter (as exposed by
+    public attributes) and the dense formula as a function of it; None for classes whose parameter is not exposed."""
+    from mici import matrices as mm
+
+    f = Family()
+    f.mask, f.label = None, type(M).__name__
+    n = M.shape[0]
+    if isinstance(M, (mm.DensePositiveDefiniteProductMatrix, mm.SoftAbsRegularizedPositiveDefiniteMatrix)):
+        return None     # parameter (rectangular factor / unregularised matrix) is not the dense array
+    if isinstance(M, mm.ScaledIdentityMatrix):
+        f.theta0 = float(M.scalar)
+        f.dense = lambda t: float(t) * np.eye(n)
+    elif isinstance(M, mm.DiagonalMatrix):
+        f.theta0 = np.array(M.diagonal, dtype=float)
+        f.dense = lambda t: np.diag(t)
+    elif isinstance(M, mm.TriangularFactoredDefiniteMatrix):
+        lower = bool(M.factor.lower)
+        T = np.array(M.factor.array, dtype=float)
+        f.mask = np.tril(np.ones((n, n))) if lower else np.triu(np.ones((n, n)))
+        sign = 1.0 if np.asarray(M.array)[0, 0] > 0 else -1.0
+        f.theta0 = T * f.mask
+        f.dense = lambda t: sign * (t * f.mask) @ (t * f.mask).T
+        f.label += f"[sign={int(sign)},{'lower' if lower else 'upper'},{type(M.factor).__name__}]"
+    elif isinstance(M, mm.DenseDefiniteMatrix):
+        X = np.array(M.array, dtype=float)
+        f.theta0 = 0.5 * (X + X.T)
+        f.sym = True
+        f.dense = lambda t: t
+    elif isinstance(M, mm.PositiveDefiniteBlockDiagonalMatrix):
+        import scipy.linalg as sla
+
+        fams = [readout(b) if isinstance(b, mm.DifferentiableMatrix) else None for b in M.blocks]
+        if any(x is None for x in fams):
+            return None
+        f.fams = fams
+        f.theta0 = tuple(x.theta0 for x in fams)
+        f.dense = lambda t: sla.block_diag(*[x.dense(ti) for x, ti in zip(fams, t)])
+    else:
+        return None
+    return f
+
+
+def check_gradients(res, M, f, D, v, key_prefix, what):
+    """Compare both gradients of the mici object M with finite differences of the family's dense formula."""
+    for s in (-3e-3, 3e-3):
+        try:
+            c = np.linalg.cond(f.dense(t_add(f.theta0, s, D)))
+        except np.linalg.LinAlgError:
+            c = np.inf
+        if not np.isfinite(c) or c > 1e5:
+            return "ill-conditioned"
+
+    def logdet(s):
+        return np.linalg.slogdet(f.dense(t_add(f.theta0, s, D)))[1]
+
+    def quad(s):
+        return float(v @ np.linalg.solve(f.dense(t_add(f.theta0, s, D)), v))
+
+    fails = []
+    for name, fun, get in (("grad_log_abs_det", logdet, lambda: M.grad_log_abs_det),
+                           ("grad_quadratic_form_inv", quad, lambda: M.grad_quadratic_form_inv(v.copy()))):
+        key = f"{key_prefix}:{name}"
+        try:
+            g = get()
+        except Exception as e:  # noqa: BLE001
+            if through_code_under_test(e.__traceback__) is None:
+                raise
+            fails.append((key + f":raises:{type(e).__name__}", f"{name} of {what} raised {type(e).__name__}: {e}"))
+            continue
+        probs = structure_problems(f, g)
+        if probs:
+            fails.append((key + ":structure", f"{name} of {what}: " + "; ".join(probs)))
+            continue
+        got = t_inner(g, D)
+        ref, ref_coarse = fd_dir(fun, 5e-4), fd_dir(fun, 1e-3)
+        scale = 1.0 + abs(ref) + abs(fun(0.0))
+        if not abs(ref - ref_coarse) <= 1e-7 * scale:
+            return "finite-difference-reference-unreliable"
+        if not np.isfinite(got) or abs(got - ref) > 1e-6 * scale:
+            fails.append((key, f"{name} of {what}: <grad,D> = {got!r} but the derivative of the dense formula along D "
+                          f"is {ref!r}"))
+    for k, m in fails:
+        res.fail(k, m)
+    return None
+
+
+def run_derived(res, case, f, v):
+    from mici import matrices as mm
+
+    warm, deriv, c = case.get("warm", []), case.get("deriv", []), case.get("c", 1.0)
+    if not deriv:
+        return
+    M = f.make(f.theta0)
+    R = f.dense(f.theta0)
+
+    def attr(obj, path):
+        for a in path.split("."):
+            if a == "grad_quad":
+                obj = obj.grad_quadratic_form_inv(v.copy())
+            else:
+                obj = getattr(obj, a)
+        return obj
+
+    try:
+        for w in warm:
+            if w in ("sqrt",) and not isinstance(M, mm.PositiveDefiniteMatrix):
+                continue
+            if w == "factor" and not hasattr(type(M), "factor"):
+                continue
+            attr(M, w)
+        X = M
+        for d in deriv:
+            if d == "mul":
+                X, R = c * X, c * R
+            elif d == "abs-mul":
+                X, R = abs(c) * X, abs(c) * R
+            elif d == "rmul":
+                X, R = X * c, R * c
+            elif d == "div":
+                X, R = X / c, R / c
+            elif d == "neg":
+                X, R = -X, -R
+            elif d == "inv":
+                X, R = X.inv, np.linalg.inv(R)
+            else:
+                X, R = X.T, R.T
+    except Exception as e:  # noqa: BLE001
+        if through_code_under_test(e.__traceback__) is None:
+            raise
+        res.classes.append("derived:derivation-raises")     # algebra of derived objects is C10's concern
+        return
+    if not isinstance(X, mm.DifferentiableMatrix):
+        res.classes.append("derived:not-differentiable")
+        return
+    fam = readout(X)
+    if fam is None:
+        res.classes.append("derived:parameter-not-exposed:" + type(X).__name__)
+        return
+    if not np.allclose(fam.dense(fam.theta0), R, rtol=0, atol=1e-8 * (1 + np.max(np.abs(R)))):
+        # the object's own parameter does not reproduce the matrix the derivation stands for: that is a defect of
+        # the algebra (C10), and the gradient "with respect to the defining parameter" has no reference
+        res.classes.append("derived:parameter-inconsistent-with-array")
+        return
+    if isinstance(fam.theta0, tuple):
+        fam.fams = fam.fams
+    D, _ = direction(fam, case["D"], 3)
+    tag = "+".join(warm) + ">" + "+".join(deriv)
+    note = check_gradients(res, X, fam, D, v, f"C11:derived:{type(X).__name__}",
+                           f"{fam.label} obtained from {f.label} by [{' '.join(deriv)}] after evaluating [{' '.join(warm)}]")
+    res.classes.append("derived:" + (note or "checked"))
+    if note is None and warm:
+        res.classes.append("derived:warm-checked")
+
+
 def fd_dir(fun, h=1e-3):
     return sum(c * fun(k * h) for k, c in zip(range(-3, 4), FD6) if c != 0.0) / h
 
@@ -331,4 +500,6 @@ def run_case(case) -> Result:
         if not np.isfinite(got) or abs(got - ref) > 1e-6 * scale:
             res.fail(key, f"{name} of {f.label}: <grad,D> = {got!r} but the derivative of the dense formula "
                      f"along D is {ref!r}", got=got, ref=ref)
+    if not res.failures:
+        run_derived(res, case, f, v)
     return res
